@@ -96,11 +96,7 @@ fn gen_c<C: Suite>(seed: u64, run: u64, tier: Tier) -> Scenario {
     }
     // random-source fault: two participants run on a CLONED generator state (machines restored from one snapshot) and so choose
     // the same polynomial and broadcast the same commitment - unusual, legal, and the key generation must still come out right
-    let mut ap = stream(seed, run, "gen/rng_alias");
-    if n >= 2 && ap.chance(1, 10) {
-        let pair = ap.subset(n as usize, 2);
-        s.extra = serde_json::json!({"rng_alias": {pair[1].to_string(): pair[0]}});
-    }
+    maybe_rng_alias(&mut s, seed, run, 10);
     s
 }
 
